@@ -348,6 +348,7 @@ def write_evidence(prop, a, seed, summary, obligations, reports, known_hits, vio
                 dest.append(L.function_source(q))
             except KeyError:
                 dest.append({"function": q, "missing": True})
+    executed = sorted({x for rep in reports for x in rep.get("executed", [])})
     proved_ids = [o for o, s in summary.items() if not obligations[o][0].get("bounded")]
     bounded_ids = [o for o, s in summary.items() if obligations[o][0].get("bounded")]
     known_ids = {oid for oid, *_ in known_hits}
@@ -376,6 +377,7 @@ def write_evidence(prop, a, seed, summary, obligations, reports, known_hits, vio
         "known_findings": sorted({f"{e['obligation']} :: {e['what']}" for _, e, _, _ in known_hits}),
         "functions_under_contract": funcs,
         "functions_inlined": inlined,
+        "functions_executed_symbolically": executed,
         "backends": backends,
         "solver_time_s": round(solver_time, 2),
         "paths_explored": n_paths,
